@@ -52,6 +52,8 @@ def run(pid, tier, seed, extra_model=None):
         scheds += directed.c01_family(tier)
     if pid == "C03":
         scheds += directed.c03_family(tier) + directed.c01_family(tier)[::3]
+    if pid == "C06":
+        scheds += directed.c06_gas_overflow_family()
     # the committed directed corpus rides along
     for path in sorted(glob.glob(os.path.join(common.ROOT, "corpus", "*.ndjson"))):
         for line in open(path):
@@ -71,6 +73,18 @@ def run(pid, tier, seed, extra_model=None):
         distinct.add(key)
         if pid == "C05" or any(nontriv(st) for st in s):
             nontrivial += 1
+    if pid == "C06":
+        # mainnet below 929 000: the legacy transaction identity (known finding D17 is exhibited here on every run) and the
+        # coherence laws across the switch to the hash of the signed bytes
+        base = 928994
+        extra = directed.legacy_id_collision(base) + directed.c19_fork_family(base, tier)[:1]
+        tracecheck.VALIDATE_CFG[0] = "TraceRef_mainnet_rlp.cfg"
+        tracecheck.BASE[0] = base
+        try:
+            cov["mainnet_legacy_ids"] = tracecheck.run_corpus(pid, "c06_mainnet", extra, v, shards=1, net="mainnet", light=True)
+        finally:
+            tracecheck.VALIDATE_CFG[0] = "TraceRef.cfg"
+            tracecheck.BASE[0] = 0
     if pid == "C08":
         # mainnet: the identity of a signed transaction is its signing hash while the block under construction is below
         # 929 000 and the hash of its bytes from there on; the directed family parks below and drains at / above that height
@@ -82,7 +96,7 @@ def run(pid, tier, seed, extra_model=None):
         tracecheck.VALIDATE_CFG[0] = "TraceRef_mainnet_rlp.cfg"
         tracecheck.BASE[0] = base
         try:
-            cov["mainnet_id_regime"] = tracecheck.run_corpus(pid, "c08_mainnet", extra, v, shards=8, net="mainnet", light=True)
+            cov["mainnet_id_regime"] = tracecheck.run_corpus(pid, "c08_mainnet", extra, v, shards=4, net="mainnet", light=True)
         finally:
             tracecheck.VALIDATE_CFG[0] = "TraceRef.cfg"
             tracecheck.BASE[0] = 0
